@@ -13,7 +13,8 @@ from .. import core
 OPS = ["sum", "prod", "max", "min"]
 TYS = ["u", "i", "d"]
 PATNAMES = {0: "random", 1: "sorted", 2: "reversed", 3: "constant", 4: "two-values", 5: "extremes", 6: "16-values",
-            7: "small-random", 9: "mostly-maximum", 10: "strided-two-values"}
+            7: "small-random", 9: "mostly-maximum", 10: "strided-two-values", 11: "mixed-sign-extreme-in-first-chunk",
+            12: "mixed-sign-extreme-in-middle", 13: "mixed-sign-extreme-at-end", 14: "sorted-one-swap", 15: "sorted-last-smallest"}
 SAFE_SORT_PATS = [0, 0, 1, 2, 5, 6, 7, 3, 4, 9]  # incl. constant / two values / mostly the maximum (pivot = maximum rule)
 RISKY_SORT_PATS = [3, 4, 9]
 LOOP_CHUNK = 10000
@@ -88,6 +89,29 @@ def red_cases(rng, w, quick):
                 pat = rng.choice([0, 3, 4, 5, 6, 7])
                 cases.append((fl, "sinc" if fl == "sinc" else "la", op, ty, pat, n + start + rng.below(3), rng.next() >> 1, start, start + n, 0))
     return cases
+
+
+def signed_red_cases(fl):
+    """always run: every signed reduction (int and double, all four operators) on mixed-sign arrays with a unique maximum and a
+    unique minimum (+-inf for doubles) in the first chunk / the middle / the last elements, lengths around the 10000-element chunks"""
+    kind = "qutil" if fl == "qutil" else "la"
+    cs = []
+    for n in (10001, 20000, 20001, 25000, 100003):
+        for ty in ("i", "d"):
+            for op in OPS:
+                for pat in (11, 12, 13):
+                    cs.append((fl, kind, op, ty, pat, n, 1000 + n % 97 + (7 if op in ("max", "sum") else 8), 0, n, 0))
+    return cs
+
+
+def pinned_sort_cases(which_list):
+    """always run: already sorted / reversed / sorted with one swap / sorted except the last element, above the partition threshold"""
+    cs = []
+    for which in which_list:
+        for n in (20002, 30011, 50000, 100003):
+            for pat in ((1, 14, 15) if which == "merge" else (1, 2, 14, 15)):   # reversed mergesort is quadratic (model and code)
+                cs.append((which, pat, n, 500 + n % 89))
+    return cs
 
 
 def qutil_red_cases(rng, quick):
@@ -229,6 +253,12 @@ def run(ctx):
         w = ns * nw
         # ------------------------------------------------------------ reductions
         reds = [tuple(c) for c in corpus.get("red", [])] + red_cases(rng.fork(), w, quick) + (qreds if ci < (2 if quick else 99) or ci == 3 else qreds[::7])
+        if ci in (0, 1) or not quick:
+            reds += signed_red_cases("qutil")
+        if ci == 0 or not quick:
+            reds += signed_red_cases("api")
+        elif ci == 1:
+            reds += [c for c in signed_red_cases("api") if c[2] in ("max", "min") and c[4] == 12 and c[5] == 25000]
         ilines = ["red %s %s %s %d %d %d %d %d %d" % (fl, op, ty, pat, n, seed, start, stop, feb)
                   for (fl, kind, op, ty, pat, n, seed, start, stop, feb) in reds]
         t0 = time.time()
@@ -266,6 +296,10 @@ def run(ctx):
             scs = sorts[:npin] + sorts[npin::2]
         else:
             scs = sorts[:npin][ci % 2::2] + [c for c in sorts[npin:] if c[2] <= 10001 or c[0] == "qt"][ci % 4::4]
+        if ci in (0, 3) or not quick:
+            scs = pinned_sort_cases(["qutil", "aligned", "merge"]) + scs
+        if ci in (1, 3) or not quick:
+            scs = pinned_sort_cases(["qt"]) + scs
         mo_s = model([model_sort_cmd(c, ns, cacheline) for c in scs])
         # the named hypothesis of the sortedness theorem (strided_partition_post) evaluated on the model for every input
         # whose top-level call enters the parallel partition loop
